@@ -136,6 +136,8 @@ def gen_step(rng, sid, knames, weights=None):
         st['compression'] = rng.choice([None, [2, 1], [0]])
         st['primary'] = rng.choice([None, None, True, False])
         st['key_expiration_s'] = rng.choice([None, None, None, 86400 * 365 * 30, 86400 * 365 * 50])
+        # a self-certification that itself expires (unusual, legal): it stays on the key and in its exports
+        st['sig_expires_s'] = rng.choice([None, None, None, None, 3600, 86400 * 30])
     if kind == 'add_subkey':
         st['alg'] = rng.choice(['cv25519', 'cv25519', 'ed25519', 'p256', 'ecdh_p256', 'ecdh_p384'])
         st['usage'] = ('E' if not world.can_sign(st['alg']) else rng.choice(['S', 'S', 'SA', 'A']))
@@ -302,6 +304,9 @@ class KeyHistory(object):
             kw['primary'] = st['primary']
         if st.get('key_expiration_s'):
             kw['key_expiration'] = datetime.timedelta(seconds=st['key_expiration_s'])
+        if st.get('sig_expires_s') and st.get('op') in ('add_uid', 'recertify'):
+            kw['expires'] = datetime.timedelta(seconds=st['sig_expires_s'])
+            self.ctx.probe('self_certification_expires')
         return kw
 
     def _op_tick(self, st, name, k, mk):
